@@ -59,8 +59,11 @@ class Run:
                 if name in ("as_i64", "as_u64", "as_f64"):
                     v = recv[1].get(name[3:])
                     return ("Some", v) if v is not None else ("None",)
-                if name in ("is_i64", "is_u64", "is_f64"):
-                    return recv[1].get(name[3:]) is not None
+                if name in ("is_i64", "is_u64"):
+                    return recv[1].get(name[3:]) is not None and recv[1].get("repr", "int") == "int"
+                if name == "is_f64":
+                    # serde_json: true only for numbers stored as f64 (as_f64 converts integers, is_f64 does not)
+                    return recv[1].get("repr") == "float" if "repr" in recv[1] else recv[1].get("f64") is not None
             if isinstance(recv, tuple) and recv and recv[0] == "text":
                 # ("text", byte_length, char_count): RFC 8610 3.8.1 counts bytes for .size on text
                 if name == "len":
@@ -117,10 +120,14 @@ def num(i64=None, u64=None, f64=None):
 
 
 def json_number(x):
-    """serde_json::Number model: what as_i64/as_u64/as_f64 return for a JSON number x"""
+    """serde_json::Number model: what as_i64/as_u64/as_f64 and is_i64/is_u64/is_f64 return for a JSON number x"""
     if isinstance(x, float):
-        return num(None, None, x)
-    return num(x if -2**63 <= x < 2**63 else None, x if 0 <= x < 2**64 else None, float(x))
+        n = num(None, None, x)
+        n[1]["repr"] = "float"
+        return n
+    n = num(x if -2**63 <= x < 2**63 else None, x if 0 <= x < 2**64 else None, float(x))
+    n[1]["repr"] = "int"
+    return n
 
 
 # --------------------------------------------------------------------------
